@@ -1,6 +1,7 @@
 CONSTANTS M = 3
 K = 3
 UsedCheck = TRUE
+ChanCap = 0
 PoolSet = "five"
 SPECIFICATION Spec
 INVARIANTS WgNeverNegative NoSendOnClosed CloseAfterAllDone WgCountsLive ResultIsRings
